@@ -70,6 +70,41 @@ CHECKS = {
     'C36': ('TLC model check of PCSchedCrash.tla (every crash point/prefix) + fault enumeration on real worlds',
             'Every schedule position with bytes in flight x victim x cut position (frame/header boundaries, inside frames) x EOF/error close for bounded real programs: every output a survivor completes equals the reference; model: label discipline and consumed-were-sent survive any crash.',
             'One crash per run; bounded programs.', 'DESIGN.md 2.4, C36'),
+    'C01': ('TLC-simulated walks of the SecInt register machine replayed on real party worlds + operation tables of real worlds validated by TLC (SecIntTrace.tla)',
+            'All 4-bit operand pairs (sampled for 8/16 bits, range extremes included) of every operation of the statement on m in 1..7, PRSS on/off, k in {14,30}: every party\'s output equals Python integer arithmetic (TLC evaluates the specification per recorded event); compositions through TLC-generated machine walks.',
+            'Bit lengths <= 16, k >= 14 (tiny fields make the public zero test fail with probability 1/p).', 'DESIGN.md C01'),
+    'C02': ('Recorded fixed-point results of real party worlds validated by TLC against the interval semantics of SecFxp.tla',
+            'All documented bounds (exact +,-,comparisons; 1 unit products; 2(1+|x|) float factors; 16(1+|x|) division/reciprocal; floor/ceil trunc; powers; sin/cos against a harness enclosure) checked in exact integer arithmetic for sampled/all representable inputs of (8,4),(10,5),(6,3) (thorough more) on m in {1,3,4,..}.',
+            'sin/cos reference enclosure from math.sin/cos; types <= 16 bits.', 'DESIGN.md C02'),
+    'C03': ('Recorded results and integral marks of real fixed-point programs (lists of mixed integrality) validated by TLC (SecFxp.FlagOK/BoundOK)',
+            'One-sided: integral=True with a non-whole value, or a later product outside its bound, is a violation; scalar operators and all list operations on mixed lists.', 'Bounded inputs.', 'DESIGN.md C03'),
+    'C04': ('Recorded secure field operations of real worlds (incl. lifted fields) validated by TLC against Fields.tla (SecFldTrace)',
+            'All element pairs of GF(2),GF(3),GF(5),GF(7),GF(4),GF(8),GF(9) (sampled GF(251)) through + - * / ** == is_zero if_else, bitwise ops, to_bits/from_bits on m in {1,3,5,..} incl. m >= q; results in the requested field type.',
+            'Orders <= 251.', 'DESIGN.md C04'),
+    'C06': ('Recorded conversions on real worlds validated by TLC against Convert.tla',
+            'All pairs among 7 secure types, signed and unsigned field worlds, PRSS on/off: value preserved; fixed->int neighbouring integer; canonical representative for fields.', 'Values fit target and min bit length.', 'DESIGN.md C06'),
+    'C20': ('TLC complete state graph of FieldMachine.tla (every element x operator x operand) replayed edge by edge on real finfields in all invocation forms + simulated walks on primes < 2^15',
+            'Exhaustive for q <= 27 (12 fields): binary, reflected, in-place, int / polynomial operands, **, shifts, reciprocal, comparison; Laws invariant over every element.', 'q <= 27 exhaustive; larger primes sampled.', 'DESIGN.md C20'),
+    'C21': ('Recorded is_sqr/sqrt/inverse sqrt of every element validated by TLC against squares-by-definition (FieldFuncs.tla)',
+            'All elements of 12 (thorough 24) fields covering p = 3 mod 4, p = 1 mod 4, q = 1 and 3 mod 4 extension fields, binary fields.', 'q <= 1100.', 'DESIGN.md C21'),
+    'C22': ('Recorded to_bytes/from_bytes/pickle/int views validated by TLC against the byte-sequence specification (SerFuncs.tla)',
+            'Every element (one-element lists), empty and random lists, pickling of every element, signed/unsigned views for 8 (thorough 20) fields.', 'q <= 1100 exhaustively.', 'DESIGN.md C22'),
+    'C23': ('TLC ring-law check of Poly.tla + all polynomial pairs of bounded degree through the real gfpx operators (both representations for p=2) validated by TLC (PolyTrace)',
+            'Exhaustive pairs: p=2 deg<=3 (both representations), p=3 deg<=2, p=5,7 deg<=1 (thorough larger); divmod/gcdext/invert/powmod by defining relations.', 'Bounded degree.', 'DESIGN.md C23'),
+    'C24': ('All polynomials of bounded degree through is_irreducible / next_irreducible / find_irreducible / GF() validated by TLC against irreducibility by definition (Poly.tla)',
+            'p in {2,3,5,7}: degree <= 5/3/2/2 (thorough 8/4/3/2), both representations for p=2.', 'Bounded degree.', 'DESIGN.md C24'),
+    'C25': ('Recorded results of the pure-Python gmpy2 stand-ins validated by TLC against NumTheory.tla definitions',
+            'All pairs |x|,|y| <= 25 (thorough 60) + random pairs, unary arguments up to 2^15, prime powers up to 2^30, rational reconstruction as a relation.', 'Integers < 2^31.', 'DESIGN.md C25'),
+    'C29': ('TLC 0-1 principle on the generated Batcher schedule (SortMC) + comparator sequence of the real _sort and secure sort/selection results validated by TLC (SortTrace)',
+            '0-1 vectors n <= 10 (thorough 14) in the model; real comparator sequence equals the model for n <= 32 (64); all 0-1 inputs n <= 6 and {0,1,2}^n n <= 4 through sorted/sort/min/max/min_max/argmin/argmax with keys and list elements on m in {1,3,..}.', '0-1 principle.', 'DESIGN.md C29'),
+    'C30': ('Recorded results of bit-level building blocks on real worlds validated by TLC against Bits.tla',
+            'All bit vectors of bounded length / all 4-bit values through add_bits, to_bits, from_bits, find (all variants), unit_vector, trailing_zeros, gcp2.', 'Bounded lengths.', 'DESIGN.md C30'),
+    'C31': ('TLC complete state graph of SecList.tla (Python list semantics) replayed edge by edge on real seclists with public/secret/unit-vector indices + simulated histories',
+            'All lists of length <= 3 over {0,1,2} x all operations (about 1 800 distinct edges, 3 index forms) on a one-party world, samples on m = 3; operation histories of length 8 on one object.', 'MaxLen 3.', 'DESIGN.md C31'),
+    'C32': ('TLC check of the transcribed reduce/accumulate networks over the free monoid (Reduce.tla) + real functions with depth tracking validated by TLC (ReduceTrace)',
+            'n <= 33 (thorough 130) in the model; real functions n = 0..40 (140), with/without initial, both methods: results and depths equal the transcription.', 'Free monoid argument.', 'DESIGN.md C32'),
+    'C34': ('Recorded secure statistics on real worlds validated by TLC against Stats.tla (integers by definition; fixed point by enclosure)',
+            'Data sets of size <= 4 over -3..3 (sampled quick / all thorough), all functions, several pivot seeds; Python statistics cross-checked against the same definitions.', 'Fixed-point tolerances stated per function.', 'DESIGN.md C34'),
 }
 NA_REASON = 'check not built yet in this session (planned, see DESIGN.md section 3); not claimed'
 
